@@ -386,6 +386,19 @@ func refusedMenu(m mapping.IndexMapping) []refusedCall {
 		call: func(sl *SkSlot, w *SketchWorld) error {
 			return sl.MergeWith(NewSkSlot(otherMapping(specOfSlot(w, sl)), sl.Store, sl.Exact))
 		}})
+	for _, ok := range []byte{'G', 'I', 'C'} {
+		ok := ok
+		out = append(out, refusedCall{name: fmt.Sprintf("MergeWith(non-empty sketch of mapping kind %c with the same base and index offset)", ok),
+			call: func(sl *SkSlot, w *SketchWorld) error {
+				if specOfSlot(w, sl).Kind == ok {
+					return errors.New("same kind: not part of the menu")
+				}
+				g, o := mapParams(sl.Mapping())
+				other := NewSkSlot(MapSpec{Kind: ok, Gamma: g, Offset: o}.New(), sl.Store, sl.Exact)
+				other.Q().Add(3)
+				return sl.MergeWith(other)
+			}})
+	}
 	out = append(out, refusedCall{name: "MergeWith(non-empty sketch of the same base with the index offset shifted by 37)",
 		call: func(sl *SkSlot, w *SketchWorld) error {
 			g, o := mapParams(sl.Mapping())
@@ -473,11 +486,16 @@ func checkC13(w *SketchWorld, slot int) (fails []mc.Fail) {
 	// accepted menu last (it changes the disposable instance)
 	mn, mx := wmap.MinIndexableValue(), wmap.MaxIndexableValue()
 	vals := []float64{mn, -mn, math.Copysign(0, -1), 5e-324, -5e-324, 1}
-	if sl.Store.K == 'S' || sl.Store.K == 'P' {
+	if sl.Store.K != 'D' { // the unbounded array would have to span the whole range
 		vals = append(vals, mx, -mx)
 	}
 	for _, v := range vals {
-		for _, c := range []float64{0, math.Copysign(0, -1), 0.0009765625} {
+		if err := q.Add(v); err != nil {
+			fails = append(fails, mc.Fail{Clause: "C13.accepted", Detail: fmt.Sprintf("%s, %s store, exact=%v: Add(%v) of a trackable value was refused: %v", wspec, sl.Store, sl.Exact, v, err)})
+			return
+		}
+		mc.Count("accepted_calls", 1)
+		for _, c := range []float64{0, math.Copysign(0, -1), 0.0009765625, 1, 3} {
 			if err := q.AddWithCount(v, c); err != nil {
 				fails = append(fails, mc.Fail{Clause: "C13.accepted", Detail: fmt.Sprintf("%s, %s store, exact=%v: AddWithCount(%v, %v) of a trackable value and non-negative weight was refused: %v", wspec, sl.Store, sl.Exact, v, c, err)})
 				return
@@ -491,6 +509,41 @@ func checkC13(w *SketchWorld, slot int) (fails []mc.Fail) {
 	for _, f := range []float64{0.5, 1, 3, 5e-324} {
 		if err := q.Reweight(f); err != nil {
 			fails = append(fails, mc.Fail{Clause: "C13.accepted", Detail: fmt.Sprintf("Reweight(%v) refused: %v", f, err)})
+		}
+	}
+	// a stream whose mapping is equal within the tolerance of Equals but not
+	// identical may be absorbed (the decoder adopts it): whatever mapping the sketch
+	// carries afterwards, its own range ends are the limits of what it accepts
+	if sl.Store.K != 'D' {
+		for _, d := range []float64{4e-13, -4e-13} {
+			g, o := mapParams(sl.Mapping())
+			twin := NewSkSlot(MapSpec{Kind: specOfSlot(w, sl).Kind, Gamma: g * (1 + d), Offset: o}.New(), sl.Store, sl.Exact)
+			var b []byte
+			twin.Q().Encode(&b, false)
+			if err := q.DecodeAndMergeWith(b); err != nil {
+				continue // a stricter equality is not a violation
+			}
+			live := sl.Mapping().MaxIndexableValue()
+			where := fmt.Sprintf("%s, %s store, exact=%v, after decoding an empty sketch whose base differs by %v relative", wspec, sl.Store, sl.Exact, d)
+			for _, v := range []float64{live, -live} {
+				if err := q.AddWithCount(v, 0.0009765625); err != nil {
+					fails = append(fails, mc.Fail{Clause: "C13.accepted", Detail: fmt.Sprintf("%s: AddWithCount(%v, 2^-10) at the end of the range of the mapping the sketch now carries was refused: %v", where, v, err)})
+					return
+				}
+				if err := q.Add(v); err != nil {
+					fails = append(fails, mc.Fail{Clause: "C13.accepted", Detail: fmt.Sprintf("%s: Add(%v) at the end of the range of the mapping the sketch now carries was refused: %v", where, v, err)})
+					return
+				}
+			}
+			up := math.Nextafter(live, math.Inf(1))
+			if err := q.Add(up); !errors.Is(err, ddsketch.ErrUntrackableTooHigh) {
+				fails = append(fails, mc.Fail{Clause: "C13.refused", Detail: fmt.Sprintf("%s: Add(%v) just above the range of the mapping the sketch now carries returned %v", where, up, err)})
+				return
+			}
+			if err := q.AddWithCount(-up, 2); !errors.Is(err, ddsketch.ErrUntrackableTooLow) {
+				fails = append(fails, mc.Fail{Clause: "C13.refused", Detail: fmt.Sprintf("%s: AddWithCount(%v, 2) just below the range of the mapping the sketch now carries returned %v", where, -up, err)})
+				return
+			}
 		}
 	}
 	return
